@@ -87,6 +87,9 @@ class Findings:
         return f is not None and f.get('property') == prop
 
 
+REPORTS = []      # the reports of this process: if the machinery fails AFTER violations were found, they are still reported (bin/check)
+
+
 class Report:
     """Collects the outcome of one check run and turns it into exit code + evidence."""
 
@@ -98,6 +101,7 @@ class Report:
         self.t0 = time.time()
         self.findings = Findings()
         self.violations = []
+        REPORTS.append(self)
         self.known_hits = {}
         self.drift = []
         self.cov = {'states': 0, 'transitions': 0, 'traces_validated_against_impl': 0, 'samples': [],
